@@ -861,6 +861,52 @@ fn replay_deleted_row_announced(sc: &Value) -> Value {
     })
 }
 
+/// C18: the RoomNodeWrite arm of the real process_message with a real EventService subscriber, a real writer handle and a real reply channel
+fn replay_room_node_write_event(sc: &Value) -> Value {
+    let rt = tokio::runtime::Builder::new_multi_thread().enable_all().worker_threads(2).build().unwrap();
+    rt.block_on(async {
+        let mut keys = Keys::new();
+        let rn = c07_room_node(sc, &mut keys);
+        let expected = match rn.parse() {
+            Ok(r) => r,
+            Err(e) => return json!({"status": "precondition", "detail": format!("{}", e)}),
+        };
+        let rid = rn.node.id;
+        let base = std::env::var("VERIF_DATA_DIR").unwrap_or_else(|_| "/var/cache/discret-verif/data".to_string());
+        let dir: std::path::PathBuf = format!("{}/c18", base).into();
+        std::fs::create_dir_all(&dir).unwrap();
+        let path = dir.join(format!("{}.db", crate::security::base64_encode(&crate::security::random32()[0..6])));
+        let writer = crate::database::sqlite_database::BufferedDatabaseWriter::start(10, &path, &crate::security::random32(), 1024, false).unwrap();
+        let events = crate::event_service::EventService::new();
+        let mut sub = events.subcribe().await;
+        let mut auth = RoomAuthorisations { signing_key: Ed25519SigningKey::create_from(&crate::security::random32()), rooms: HashMap::new(), max_node_size: 1 << 20 };
+        if sc["known"].as_bool().unwrap_or(false) {
+            auth.rooms.insert(rid, Room::default());
+        }
+        let (reply, rx) = tokio::sync::oneshot::channel::<Result<()>>();
+        let (self_sender, _self_rx) = mpsc::channel::<AuthorisationMessage>(4);
+        let res: Result<()> = if sc["result"].as_str().unwrap() == "Ok" { Ok(()) } else { Err(Error::DatabaseWrite("verif".to_string())) };
+        let msg = AuthorisationMessage::RoomNodeWrite(res, RoomNodeWriteQuery { room: rn, reply });
+        AuthorisationService::process_message(msg, &mut auth, &writer, &events, &self_sender).await;
+        tokio::time::sleep(std::time::Duration::from_millis(50)).await;
+        let mut announced = 0;
+        let mut announced_is_stored = true;
+        while let Ok(e) = sub.try_recv() {
+            if let crate::event_service::Event::RoomModified(r) = e {
+                announced += 1;
+                announced_is_stored &= format!("{:?}", r) == format!("{:?}", expected);
+            }
+        }
+        let registered = auth.rooms.get(&rid).map(|r| format!("{:?}", r) == format!("{:?}", expected)).unwrap_or(false);
+        let ack = match rx.await {
+            Ok(Ok(())) => "Ok",
+            Ok(Err(_)) => "Err",
+            Err(_) => "none",
+        };
+        json!({"status": "done", "announced": announced, "announced_is_stored": announced_is_stored, "registered_is_stored": registered, "acknowledged": ack})
+    })
+}
+
 /// C03: Node::filter_existing on an in-memory SQLite holding the stored version; signatures are the 8 big-endian bytes
 /// of the model's rank, so that the byte order is the rank order
 fn replay_version_selection(sc: &Value) -> Value {
@@ -1853,6 +1899,7 @@ pub fn dispatch(sc: &Value) -> Value {
         "acquire_lock" => crate::synchronisation::room_locking_service::verif_hook::replay_acquire_lock(sc),
         "handshake" => crate::synchronisation::peer_inbound_service::verif_hook::replay_handshake(sc),
         "version_selection" => replay_version_selection(sc),
+        "room_node_write_event" => replay_room_node_write_event(sc),
         "deleted_row_announced" => replay_deleted_row_announced(sc),
         "received_edge_foreign_source" => replay_received_edge_foreign_source(sc),
         "received_edge_deletion_foreign_source" => replay_received_edge_deletion_foreign_source(sc),
@@ -2027,6 +2074,64 @@ mod api {
             .await
             .unwrap();
         println!("VERIF-API pets={}", q.replace('\n', ""));
+    }
+
+    /// C01 probe: adding a reference to an existing row one may not mutate (the row itself is unchanged: "reference" shape)
+    #[tokio::test(flavor = "multi_thread")]
+    async fn verif_api_reference_edge_no_right() {
+        if std::env::var("VERIF_API").map(|v| v != "reference_edge_no_right").unwrap_or(true) {
+            return;
+        }
+        let data_model = "ns { Person{ name:String, pets:[ns.Pet] } Pet{ name:String } }";
+        let (app, verifying_key, _) = GraphDatabaseService::start("verif app", data_model, &random32(), &random32(), data_path("reference_edge_no_right"), &Configuration::default(), EventService::new())
+            .await
+            .unwrap();
+        let user_id = base64_encode(&verifying_key);
+        let mut param = Parameters::default();
+        param.add("user_id", user_id).unwrap();
+        let room = app
+            .mutate_raw(
+                r#"mutate mut { sys.Room{ admin: [{ verif_key:$user_id }] authorisations:[{ name:"g" rights:[{ entity:"ns.Person" mutate_self:true mutate_all:true },{ entity:"ns.Pet" mutate_self:true mutate_all:true }] }] } }"#,
+                Some(param),
+            )
+            .await
+            .unwrap();
+        let room_id = base64_encode(&room.mutate_entities[0].node_to_mutate.id);
+        let auth_id = base64_encode(&room.mutate_entities[0].sub_nodes.get("authorisations").unwrap()[0].node_to_mutate.id);
+        let mut param = Parameters::default();
+        param.add("room", room_id.clone()).unwrap();
+        let res = app.mutate_raw(r#"mutate mut { ns.Person{ room_id:$room name:"me" } }"#, Some(param)).await.unwrap();
+        let person_id = base64_encode(&res.mutate_entities[0].node_to_mutate.id);
+        let mut param = Parameters::default();
+        param.add("room", room_id.clone()).unwrap();
+        let res = app.mutate_raw(r#"mutate mut { ns.Pet{ room_id:$room name:"kiki" } }"#, Some(param)).await.unwrap();
+        let pet_id = base64_encode(&res.mutate_entities[0].node_to_mutate.id);
+        tokio::time::sleep(std::time::Duration::from_millis(20)).await;
+        // ns.Person becomes read-only for everybody
+        let mut param = Parameters::default();
+        param.add("room", room_id.clone()).unwrap();
+        param.add("auth", auth_id.clone()).unwrap();
+        app.mutate_raw(
+            r#"mutate mut { sys.Room{ id:$room authorisations:[{ id:$auth rights:[{ entity:"ns.Person" mutate_self:false mutate_all:false }] }] } }"#,
+            Some(param),
+        )
+        .await
+        .unwrap();
+        tokio::time::sleep(std::time::Duration::from_millis(20)).await;
+        let mut param = Parameters::default();
+        param.add("person_id", person_id.clone()).unwrap();
+        let direct = app.mutate_raw(r#"mutate mut { ns.Person{ id:$person_id name:"renamed" } }"#, Some(param)).await;
+        println!("VERIF-API rename_refused={}", direct.is_err());
+        let mut param = Parameters::default();
+        param.add("person_id", person_id.clone()).unwrap();
+        param.add("pet_id", pet_id.clone()).unwrap();
+        let edge = app.mutate_raw(r#"mutate mut { ns.Person{ id:$person_id pets:[{ id:$pet_id }] } }"#, Some(param)).await;
+        println!("VERIF-API reference_refused={}", edge.is_err());
+        if let Ok(m) = &edge {
+            println!("VERIF-API parent_node_present={} edge_insertions={}", m.mutate_entities[0].node_to_mutate.node.is_some(), m.mutate_entities[0].edge_insertions.len());
+        }
+        let q = app.query("query q{ ns.Person{ name pets{ name } } }", None).await.unwrap();
+        println!("VERIF-API persons={}", q.replace('\n', ""));
     }
 
     /// C01: a reference from sys.Room to one of its authorisation groups (or from a group to one of
